@@ -5,6 +5,7 @@ import Mochi.Props.TieA.Handlers
 import Mochi.Props.TieA.WriteLoop
 import Mochi.Props.TieA.Decode
 import Mochi.Props.TieA.Listener
+import Mochi.Props.TieA.Pool
 /-!
 # Tie A obligations over the regenerated tables and statement orders
 
@@ -17,6 +18,7 @@ import Mochi.Props.TieA.Listener
 | `TieA/WriteLoop.lean`  | `Gen/Programs.lean`   | `C34_writeloop_order_tied`                                    | C34 |
 | `TieA/Decode.lean`     | `Gen/Programs.lean`   | `C27_properties_decode_order_tied`                            | C27 C28 C26 |
 | `TieA/Listener.lean`   | `Gen/Programs.lean`   | `C36_tcp_serve_order_tied`, `C36_tcp_close_order_tied`        | C36 |
+| `TieA/Pool.lean`       | `Gen/Programs.lean`   | `C41_put_order_tied`, `C41_capped_put_order_tied`             | C41 |
 
 Self-test (extractor pointed at a mutated scratch copy of /repo): removing `Subscribe: 1` from the
 `PropSubscriptionIdentifier` row breaks `C26_prop_table_tied`; moving `s.hooks.OnSubscribed(...)` after
